@@ -40,6 +40,14 @@ def states_from_dump(states):
     return out
 
 
+def histories_from_output(out):
+    """The <<"HIST", set of histories>> line printed by MC_Mesh: sorted list of operation lists."""
+    for v in tlaval.parse_many(out):
+        if isinstance(v, list) and len(v) == 2 and v[0] == "HIST":
+            return sorted([list(h) for h in v[1]])
+    return []
+
+
 def bkey(msh):
     """name of the reference body of a mesh: base name and stretch"""
     return msh["base"] + "|" + ",".join(str(x) for x in msh.get("stretch", (1, 1, 1)))
@@ -232,6 +240,42 @@ class Driver:
         ev["field"] = fl
         return ev
 
+    def life_event(self, tid, msh, ki, hist):
+        """One object built WITHOUT normalisation lives through the history `hist` (use / check_* / reorient); after every
+        operation the public state is observed.  A use = getB + getH + reading obj.mesh."""
+        magpy = _magpy()
+        kap, info = self.kappas[ki]
+        V = kap.length(np.array(msh["verts"], dtype=float))
+        F = np.array(msh["faces"], dtype=int) - 1
+        m = magpy.magnet.TriangularMesh(vertices=V, faces=F, polarization=POL, position=kap.tG, orientation=None if kap.identity else kap.RG,
+                                        check_open="skip", check_disconnected="skip", check_selfintersecting="skip", reorient_faces="skip")
+        index = {tuple(v): i + 1 for i, v in enumerate(np.asarray(m.vertices).tolist())}
+        pts = stretched_points(self.obs[msh["base"]]["pts"], msh.get("stretch", (1, 1, 1)))
+        B0, H0 = self.reference(msh, ki)
+        steps, raw = [], []
+        for op in hist:
+            ret = False
+            BH = None
+            if op == "use":
+                BH = fields(m, kap, pts)
+            elif op == "reorient":
+                m.reorient_faces(mode="ignore")
+            else:
+                ret = bool(getattr(m, op)(mode="ignore"))
+            # obj.mesh is read only as part of a use: the observation itself must not be a use
+            view = [[index.get(tuple(p), 0) for p in tri] for tri in np.asarray(m.mesh).tolist()] if op == "use" else []
+            steps.append({"op": op, "ret": ret, "faces": (np.asarray(m.faces) + 1).astype(int).tolist(), "faces_mesh": view,
+                          "reoriented": bool(m.status_reoriented)})
+            raw.append(BH)
+        sB = gross(B0, *[x[0] for x in raw if x is not None])
+        sH = gross(H0, *[x[1] for x in raw if x is not None])
+        for st_, BH in zip(steps, raw):
+            if BH is not None:
+                st_["B"], st_["H"] = obs8(BH[0], sB), obs8(BH[1], sH)
+        return {"type": "life", "tid": tid, "kind": msh["kind"], "base": msh["base"], "op": msh.get("op", ""), **info,
+                "stretch": list(msh.get("stretch", (1, 1, 1))), "verts_in": msh["verts"], "faces_in": msh["faces"], "hist": list(hist),
+                "steps": steps, "obs": pts, "den": OBS_DEN, "B0": obs8(B0, sB), "H0": obs8(H0, sH)}
+
     def call2(self, tid, mA, mB, shift, ki, pts, label):
         """getB/getH of [A, B] in one call against the two single calls; B sits at the lattice offset `shift`."""
         magpy = _magpy()
@@ -284,7 +328,7 @@ class Driver:
 
 def run_jobs(args):
     """Worker: args = (bases, observers, kappa spec, jobs, path of the shard); a job is a tuple
-    ("mesh", tid, msh, ki, path, src) | ("call2", tid, mA, mB, shift, ki, pts, label) | ("mode", tid, msh, mode)."""
+    ("mesh", tid, msh, ki, path, src) | ("life", tid, msh, ki, hist) | ("call2", tid, mA, mB, shift, ki, pts, label) | ("mode", tid, msh, mode)."""
     bases, observers, kspec, jobs, shard = args
     drv = Driver(bases, observers, make_kappas(kspec))
     n = 0
@@ -294,6 +338,8 @@ def run_jobs(args):
                 ev = drv.event(*j[1:])
             elif j[0] == "call2":
                 ev = drv.call2(*j[1:])
+            elif j[0] == "life":
+                ev = drv.life_event(*j[1:])
             else:
                 ev = drv.mode_event(*j[1:])
             f.write(json.dumps(ev, separators=(",", ":")) + "\n")
